@@ -2,6 +2,7 @@
    Statements only. *)
 From Coq Require Import Reals List Arith.
 From LF Require Import Base.Opcode Base.Num Base.Arena Base.Sem Tree.Build Tree.BuildSem Eval.Deck Eval.Batch Eval.DeckSem Eval.DeckSemReach Base.RInst Tree.Flatten Tree.FlattenSem Tree.Optimize Tree.OptimizePure Eval.EvalDenotes.
+From LF Require Gen.ArrayKernels_gen Eval.KernelsAgree Eval.DerivSem.
 
 (* Batch evaluation is slot-wise: position k of a batch of any size (any
    count_simd, any stale contents in the other positions) is the single-point
@@ -13,6 +14,13 @@ Theorem C01_batch_pointwise :
     k < cs -> k < w -> wide w v ->
     slice O k (eval_tape_b O oracle_at cs d tape v) = eval_tape O oracle_at d tape (slice O k v).
 Proof. exact @batch_pointwise. Qed.
+(* THE VALUE KERNELS ARE THE SOURCE'S.  [vkern_gen] is regenerated on every run from ArrayEvaluator::operator()
+   (eval_array.cpp) by translate/gen_kernels.py, one match arm per C++ case, read over the reals; it is the
+   real-number instance the semantic theorems use ([DerivSem.vk], i.e. [RD]'s unary / binary kernels) *)
+Theorem C01_value_kernels_from_source :
+  forall op a b, ArrayKernels_gen.vkern_gen op a b = DerivSem.vk op a b.
+Proof. exact KernelsAgree.vkern_gen_eq. Qed.
+
 Print Assumptions C01_batch_pointwise.
 
 (* Tree::walk + Deck::Deck + leaves-to-root tape evaluation compute the
@@ -68,3 +76,4 @@ Theorem C01_eval_denotes : forall uf bf,
     = val (R_ops uf bf) osem a i {| ex := x; ey := y; ez := z; ev := vars |}.
 Proof. exact eval_denotes. Qed.
 Print Assumptions C01_eval_denotes.
+Print Assumptions C01_value_kernels_from_source.
